@@ -224,7 +224,11 @@ _STAT = re.compile(r"(\d+) states generated, (\d+) distinct states found")
 def tlc(ctx, module, cfg, env=None, workers=6, heap_gb=3, timeout=900, extra=None, what="", ok_codes=(0,)):
     """Run TLC; return (exitcode, output).  Timeout / crash => Broken."""
     meta = ctx.fresh("tlc")
-    cmd = ["java"] + java_opts(heap_gb) + ["-cp", CP, "tlc2.TLC", "-metadir", meta, "-noGenerateSpecTE",
+    # TLC makes one temporary directory per run under java.io.tmpdir: keep them inside this run's directory (removed with
+    # it) instead of littering /tmp
+    jtmp = os.path.join(ctx.run, "jtmp")
+    os.makedirs(jtmp, exist_ok=True)
+    cmd = ["java", "-Djava.io.tmpdir=" + jtmp] + java_opts(heap_gb) + ["-cp", CP, "tlc2.TLC", "-metadir", meta, "-noGenerateSpecTE",
                                            "-fpmem", "0.02", "-workers", str(workers),
                                            "-config", os.path.join(SPEC, cfg)] + (extra or []) + \
           [os.path.join(SPEC, module)]
